@@ -203,7 +203,11 @@ impl UintVecMin0 {
     #[inline]
     pub fn fast_get(data: &[u8], bits: usize, mask: usize, idx: usize) -> Result<usize> {
         assert!(bits <= 58, "fast_get requires bits <= 58");
-        let bit_idx = bits * idx;
+        // a huge idx wrapped back into the buffer and a value came back
+        let bit_idx = match bits.checked_mul(idx) {
+            Some(b) => b,
+            None => return Err(ZiporaError::out_of_bounds(idx, data.len())),
+        };
         let byte_idx = bit_idx / 8;
 
         // SAFETY FIX: Validate we can read 8 bytes (size of usize)
